@@ -153,6 +153,10 @@ type vc17Env struct {
 	logMu   sync.Mutex
 	log     []vc17Call
 
+	// probeEnd is, per main, when its last observed health-check probe
+	// returned: the earliest moment its failure can count as established.
+	probeEnd map[int]time.Time
+
 	// slowHealthy is set when an exchange with an upstream that answers (or
 	// refuses) at once took long: the machine, not the code, was slow.
 	slowHealthy atomic.Bool
@@ -258,6 +262,37 @@ func (e *vc17Env) record(c vc17Call) {
 	defer e.logMu.Unlock()
 
 	e.log = append(e.log, c)
+}
+
+// noteProbeEnd is called by a recording upstream when a probe to main idx has
+// returned.
+func (e *vc17Env) noteProbeEnd(idx int) {
+	now := time.Now()
+	e.logMu.Lock()
+	defer e.logMu.Unlock()
+
+	if e.probeEnd == nil {
+		e.probeEnd = map[int]time.Time{}
+	}
+
+	e.probeEnd[idx] = now
+}
+
+// failedSince is the lower bound of the instant main idx's failure was
+// established in the round that ran in [t2, t3]: when its probe returned, if
+// that was observed, else the start of the round.  (The upper bound is the end
+// of the round.)  Measuring the backoff from a LOWER bound of the failure
+// keeps the tolerance on the safe side: the reference says "still in backoff"
+// only when the backoff cannot have elapsed since the failure.
+func (e *vc17Env) failedSince(idx int, t2, t3 time.Time) time.Time {
+	e.logMu.Lock()
+	defer e.logMu.Unlock()
+
+	if pe, ok := e.probeEnd[idx]; ok && !pe.Before(t2) && !pe.After(t3) {
+		return pe
+	}
+
+	return t2
 }
 
 func (e *vc17Env) activeCount() (n int) {
@@ -529,7 +564,7 @@ func (e *vc17Env) refreshRun(fail vc17Fail, run func(), observable bool) (err er
 			if probes[i] > 0 {
 				e.class("probe-sent-in-backoff")
 				if !up {
-					*s = vc17MainState{failed: true, f0: t2, f1: t3}
+					*s = vc17MainState{failed: true, f0: e.failedSince(i, t2, t3), f1: t3}
 				}
 			}
 
@@ -550,7 +585,7 @@ func (e *vc17Env) refreshRun(fail vc17Fail, run func(), observable bool) (err er
 			}
 
 			e.active[i] = false
-			*s = vc17MainState{failed: true, f0: t2, f1: t3}
+			*s = vc17MainState{failed: true, f0: e.failedSince(i, t2, t3), f1: t3}
 		}
 
 		// The anchored state: zero iff the last health check succeeded, else
